@@ -20,7 +20,7 @@ def nontrivial(log):
 
 def run(tier, seed, proof):
     return l1.run_property(PROP, tier, seed, proof, FAMILIES, MONS, SANS, nontrivial, RULE + KT_RULE + loopgen.ENUM_RULE,
-                           extra_cases=lambda tier, seed: loopgen.ktimer_cases(seed) + loopgen.quit_cases())
+                           extra_cases=lambda tier, seed: loopgen.ktimer_cases(seed) + loopgen.quit_cases() + loopgen.chain_cases())
 
 
 def search(tier, seed, proof):
